@@ -986,8 +986,8 @@ class Closure:
         self.node, self.env, self.mod, self.name, self.bound, self.owner = node, env, mod, name, bound, owner
 
 class Vmapped:
-    def __init__(self, fn, in_axes=0, out_axes=0):
-        self.fn, self.in_axes, self.out_axes = fn, in_axes, out_axes
+    def __init__(self, fn, in_axes=0, out_axes=0, axis_name=None):
+        self.fn, self.in_axes, self.out_axes, self.axis_name = fn, in_axes, out_axes, axis_name
 
 class Partial:
     def __init__(self, fn, args, kw):
@@ -1418,6 +1418,54 @@ def pi():
     return Rat(Poly.sym('pi'))
 
 # ----------------------------------------------------------------- interpreter
+FRAGILE_EQ = []          # (module, line, source) of executed exact-equality tests between a COMPUTED real quantity and a nonzero constant
+_DISCRETE_KINDS = ('bool', 'sign', 'round', 'floor', 'ceil', 'any', 'all', 'allclose', 'isnan', 'isinf', 'isfinite', 'argmax', 'argmin')
+
+
+def _fragile_eq(x, c):
+    """x == c with c a NONZERO constant and x a computed continuous quantity (not a bare symbol, not a combination of
+    boolean / sign / rounding atoms): in floating point such a test fails for all but exactly representable cases."""
+    try:
+        cs = [Rat.lift(v) for v in asarr(c).ravel()] if isinstance(c, (Rat, np.ndarray, int, float, Fraction)) and not isinstance(c, bool) else None
+    except OutOfFragment:
+        return False
+    if not cs or not all(v.is_const() for v in cs) or all(v.constval() == 0 for v in cs):
+        return False
+    if not isinstance(x, (Rat, np.ndarray)) or (isinstance(x, np.ndarray) and x.dtype != object):
+        return False
+    for v in asarr(x).ravel():
+        if not isinstance(v, Rat) or v.is_const():
+            continue
+        if v.fv is not None:
+            fv = v.fv.a if isinstance(v.fv, Dual) else v.fv
+            if isinstance(fv, Germ):
+                return True
+            small = min(fv % FIELD['p'], (-fv) % FIELD['p']) <= 16
+            if small or fv in FIELD.get('atomic_images', ()) or fv in set(x_ for x_ in FIELD['vals'].values() if isinstance(x_, int)):
+                continue
+            return True
+        if not v.d.is_const():
+            return True
+        monos = [m for m in v.n.t if m != ()]
+        if len(monos) == 1 and len(monos[0]) == 1 and monos[0][0][1] == 1:
+            continue                                      # a bare symbol (a configuration value, an input)
+        if all(isinstance(nm, Atom) and nm.kind in _DISCRETE_KINDS for m in monos for nm, _ in m):
+            continue                                      # a combination of discrete-valued atoms
+        return True
+    return False
+
+
+COLLECTIVE_CTX = []
+
+
+def _single_atom_of(r):
+    r = Rat.lift(r)
+    monos = [m for m in r.n.t if m != ()]
+    if len(monos) != 1 or len(monos[0]) != 1:
+        raise OutOfFragment('collective placeholder lost its identity')
+    return monos[0][0][0]
+
+
 class Interp:
     def __init__(self):
         self.calls = 0
@@ -1567,6 +1615,8 @@ class Interp:
             res = None
             for op, c in zip(n.ops, n.comparators):
                 r = self.ev(c, env, mod)
+                if isinstance(op, (ast.Eq, ast.NotEq)) and (_fragile_eq(l, r) or _fragile_eq(r, l)):
+                    FRAGILE_EQ.append((mod, n.lineno, ast.unparse(n)))
                 v = self.compare(op, l, r)
                 res = v if res is None else self.binop(ast.Mult(), res, v)
                 l = r
@@ -1962,13 +2012,14 @@ class Interp:
                     out[idx + (k,)] = Rat.lift(x[idx])._cmp('==', k) if not Rat.lift(x[idx]).is_const() else Rat.lift(int(Rat.lift(x[idx]).constval() == k))
             return out
         if name in ('jax.vmap',):
-            return Vmapped(args[0], in_axes=kw.get('in_axes', args[1] if len(args) > 1 else 0), out_axes=kw.get('out_axes', 0))
+            return Vmapped(args[0], in_axes=kw.get('in_axes', args[1] if len(args) > 1 else 0), out_axes=kw.get('out_axes', 0),
+                           axis_name=kw.get('axis_name'))
         if name in ('jax.jit',):
             return args[0]
         if name in ('functools.partial',):
             return Partial(args[0], args[1:], kw)
         if name in ('jax.tree.map', 'jax.tree_util.tree_map', 'jax.tree_map'):
-            return self.tree_map(args[0], *args[1:])
+            return self.tree_map(args[0], *args[1:], is_leaf=kw.get('is_leaf'))
         if name == 'jax.lax.stop_gradient':
             return self.tree_map(('prim', 'sg', lambda x: elemwise(lambda v: uf('stop_gradient', v), x)), args[0])
         if name == 'jax.lax.scan':
@@ -1978,6 +2029,21 @@ class Interp:
         if name in ('jax.lax.psum', 'jax.lax.pmean'):
             ax = kw.get('axis_name', args[1] if len(args) > 1 else None)
             op = name.rsplit('.', 1)[1]
+            ctx = next((c_ for c_ in reversed(COLLECTIVE_CTX) if c_['axis'] == ax), None)
+            if ctx is not None and not FIELD['on']:
+                k_ = len(ctx['calls'][ctx['member']])
+                def ph(x, k_=k_, ctx=ctx):
+                    x = asarr(x)
+                    out = np.empty(x.shape, dtype=object)
+                    for idx in np.ndindex(*x.shape) if x.shape else [()]:
+                        out[idx] = Rat(Poly.sym(atom_key('collective', (op, id(ctx), ctx['member'], k_, idx), (op, id(ctx), ctx['member'], k_, idx))))
+                    return out if x.shape else out[()]
+                leaves_in = self.leaves(args[0])
+                if len(leaves_in) != 1:
+                    raise OutOfFragment('collective over a pytree inside a named mapped axis')
+                p_ = ph(leaves_in[0])
+                ctx['calls'][ctx['member']].append((op, p_, leaves_in[0]))
+                return self.tree_map(('prim', 'ph', lambda x: p_), args[0])
             return self.tree_map(('prim', op, lambda x: elemwise(lambda v: uf(op, v, ax), x)), args[0])
         if name in ('jax.sharding.PartitionSpec', 'jax.sharding.NamedSharding', 'jax.sharding.Mesh'):
             return ('opaque', name)
@@ -2008,7 +2074,8 @@ class Interp:
             import itertools as _it
             return list(_it.product(*[list(a) for a in args]))
         if name in ('jax.pmap',):
-            return Vmapped(args[0])
+            return Vmapped(args[0], in_axes=kw.get('in_axes', 0), out_axes=kw.get('out_axes', 0),
+                           axis_name=kw.get('axis_name', args[1] if len(args) > 1 and isinstance(args[1], str) else None))
         if name in ('jax.experimental.pjit.pjit', 'jax.pjit'):
             return args[0]
         if name in ('jax.process_index',):
@@ -2113,6 +2180,49 @@ class Interp:
             return data
         if name in ('jax.tree_util.tree_flatten', 'jax.tree.flatten', 'jax.tree_flatten'):
             return self.leaves(args[0]), ('treedef', args[0])
+        if name in ('jax.tree_util.tree_structure', 'jax.tree.structure', 'jax.tree_structure'):
+            return ('treedef', args[0])
+        if name in ('jax.tree_util.tree_unflatten', 'jax.tree.unflatten', 'jax.tree_unflatten'):
+            td, lv = args[0], list(args[1])
+            if not (isinstance(td, tuple) and len(td) == 2 and td[0] == 'treedef'):
+                raise OutOfFragment('tree_unflatten with a foreign treedef')
+            it = iter(lv)
+            return self.tree_map(('prim', 'fill', lambda _x: next(it)), td[1])
+        if name in ('jax.tree_util.tree_transpose', 'jax.tree.transpose', 'jax.tree_transpose'):
+            outer, inner, tree = args[0], args[1], args[2]
+            if not all(isinstance(t_, tuple) and len(t_) == 2 and t_[0] == 'treedef' for t_ in (outer, inner)):
+                raise OutOfFragment('tree_transpose with a foreign treedef')
+            n_in = len(self.leaves(inner[1]))
+            # every leaf position of `outer` holds an `inner`-shaped subtree: collect, per inner leaf, an outer-shaped tree
+            subs = []
+            def grab(ref, t_):
+                subs.append(self.leaves(t_)[:n_in] if True else None)
+                return ref
+            def walk(ref, t_):
+                if isinstance(ref, Struct):
+                    for k_ in ref.f:
+                        if k_ in static_fields(ref.home or STRUCT_HOME.get(ref.cls), ref.cls) if (ref.home or STRUCT_HOME.get(ref.cls)) else ():
+                            continue
+                        walk(ref.f[k_], t_.f[k_])
+                elif isinstance(ref, dict):
+                    for k_ in ref:
+                        walk(ref[k_], t_[k_])
+                elif isinstance(ref, (tuple, list)) and not isinstance(ref, np.ndarray):
+                    for a_, b_ in zip(ref, t_):
+                        walk(a_, b_)
+                elif ref is None:
+                    return
+                else:
+                    subs.append(self.leaves(t_))
+            walk(outer[1], tree)
+            if any(len(x_) != n_in for x_ in subs):
+                raise OutOfFragment('tree_transpose: inner structure mismatch')
+            outs = []
+            for j_ in range(n_in):
+                it = iter([x_[j_] for x_ in subs])
+                outs.append(self.tree_map(('prim', 'fill', lambda _x, it=it: next(it)), outer[1]))
+            it2 = iter(outs)
+            return self.tree_map(('prim', 'fill', lambda _x: next(it2)), inner[1])
         if name == 'jax.flatten_util.ravel_pytree':
             tree = args[0]
             lv = [asarr(x) for x in self.leaves(tree)]
@@ -2244,8 +2354,25 @@ class Interp:
             return []
         return [t]
 
-    def tree_map(self, fn, *trees):
+    def tree_map(self, fn, *trees, is_leaf=None):
         t0 = trees[0]
+        if is_leaf is not None:
+            r_ = self.apply(is_leaf, [t0], {})
+            r_ = (r_.constval() != 0) if isinstance(r_, Rat) and r_.is_const() else r_
+            if isinstance(r_, (bool, int, np.bool_)) and r_:
+                return self.apply(fn, list(trees), {})
+            rec = lambda *ts: self.tree_map(fn, *ts, is_leaf=is_leaf)
+            if isinstance(t0, Struct):
+                home = t0.home or STRUCT_HOME.get(t0.cls)
+                static = static_fields(home, t0.cls) if home else ()
+                return Struct(t0.cls, {k: (t0.f[k] if k in static else rec(*[t.f[k] for t in trees])) for k in t0.f}, home=t0.home)
+            if isinstance(t0, (tuple, list)) and not isinstance(t0, np.ndarray):
+                return type(t0)(rec(*xs) for xs in zip(*trees))
+            if isinstance(t0, dict):
+                return {k: rec(*[t[k] for t in trees]) for k in t0}
+            if t0 is None:
+                return None
+            return self.apply(fn, list(trees), {})
         if isinstance(t0, Struct):
             home = t0.home or STRUCT_HOME.get(t0.cls)
             static = static_fields(home, t0.cls) if home else ()
@@ -2316,9 +2443,39 @@ class Interp:
         if n is None:
             raise OutOfFragment('vmap without mapped axis')
         outs = []
-        for i in range(n):
-            ai = [self._slice_axes(a, ax, i) for a, ax in zip(args, in_axes)]
-            outs.append(self.apply(vm.fn, ai, kw))
+        ctx = None
+        if getattr(vm, 'axis_name', None) is not None:
+            # a NAMED mapped axis: psum / pmean over it inside the mapped function are cross-member sums.  Every member
+            # is run with placeholders for its collectives; afterwards placeholder k of every member becomes the sum
+            # (mean) over the members of the k-th collective's argument.
+            ctx = {'axis': vm.axis_name, 'n': n, 'member': 0, 'calls': [[] for _ in range(n)]}
+            COLLECTIVE_CTX.append(ctx)
+        try:
+            for i in range(n):
+                if ctx is not None:
+                    ctx['member'] = i
+                ai = [self._slice_axes(a, ax, i) for a, ax in zip(args, in_axes)]
+                outs.append(self.apply(vm.fn, ai, kw))
+        finally:
+            if ctx is not None:
+                COLLECTIVE_CTX.pop()
+        if ctx is not None and any(ctx['calls']):
+            if len({len(c_) for c_ in ctx['calls']}) != 1:
+                raise OutOfFragment('members of a named mapped axis issue different numbers of collectives')
+            repl = {}
+            for k_ in range(len(ctx['calls'][0])):
+                op = ctx['calls'][0][k_][0]
+                tot = None
+                for m_ in range(n):
+                    v_ = asarr(ctx['calls'][m_][k_][2])
+                    tot = v_ if tot is None else tot + v_
+                if op == 'pmean':
+                    tot = tot / n
+                for m_ in range(n):
+                    ph = asarr(ctx['calls'][m_][k_][1])
+                    for idx in np.ndindex(*ph.shape) if ph.shape else [()]:
+                        repl[_single_atom_of(ph[idx])] = Rat.lift(asarr(tot)[idx] if asarr(tot).shape else asarr(tot)[()])
+            outs = [self.tree_map(('prim', 'subst', lambda x: subst_atoms(asarr(x), lambda a_: repl.get(a_))), o_) for o_ in outs]
         stacked = self.tree_map(('prim', 'stack', lambda *a: np.stack([asarr(x) for x in a])), *outs)
         return self._move_out_axes(stacked, vm.out_axes)
 
@@ -3066,6 +3223,12 @@ JNP.update({
     'average': lambda x, axis=None, weights=None: (asarr(x).sum(axis=axis) / (asarr(x).size if axis is None else asarr(x).shape[axis])) if weights is None
                else (asarr(x) * asarr(weights)).sum(axis=axis) / asarr(weights).sum(axis=axis),
     'count_nonzero': lambda x, axis=None: np.count_nonzero(_concrete(x, 'count_nonzero'), axis=axis),
+    'flatnonzero': lambda x: np.flatnonzero(_concrete(x, 'flatnonzero')),
+    'nonzero': lambda x, **k: np.nonzero(_concrete(x, 'nonzero')),
+    'argwhere': lambda x, **k: np.argwhere(_concrete(x, 'argwhere')),
+    'isin': lambda a, b, **k: np.isin(_concrete(a, 'isin'), _concrete(b, 'isin')),
+    'unique': lambda x, **k: np.unique(_concrete(x, 'unique')),
+    'cumsum': JNP.get('cumsum') or (lambda x, axis=None: np.cumsum(asarr(x), axis=axis)),
     'sort': lambda x, axis=-1: np.sort(_concrete(x, 'sort'), axis=axis),
     'argsort': lambda x, axis=-1: np.argsort(_concrete(x, 'argsort'), axis=axis, kind='stable'),
     'dstack': lambda xs: np.dstack([asarr(x) for x in xs]),
